@@ -119,10 +119,11 @@ bool solver_t::done(solver_state_t& state, const bool iter_ok, const bool conver
 {
     state.update_calls();
 
-    if (const auto step_ok = iter_ok && state.valid(); converged || !step_ok)
+    // NB: an invalid state (e.g. non-finite function value) cannot be a point of convergence!
+    if (const auto step_ok = iter_ok && state.valid(); (converged && state.valid()) || !step_ok)
     {
         // either converged or failed
-        state.status(converged ? solver_status::converged : solver_status::failed);
+        state.status((converged && state.valid()) ? solver_status::converged : solver_status::failed);
         logger.info("[solver-", type_id(), "]: ", state, ".\n");
         return true;
     }
